@@ -15,13 +15,15 @@ BUDGET = {'quick': {'cases': 24000, 'seconds': 40}, 'thorough': {'cases': 400000
 
 
 def strategy(tier):
-    return gen.tiered(tier, max_ops=14)
+    return gen.tiered(tier, max_ops=14, shifts=True)
 
 
 def exhaustive(tier):
+    import itertools
+    long_ = gen.very_long_cases()       # every tier: twelve fixed histories with a pair of 65-130 runs
     if tier != 'thorough':
-        return None
-    return {'cases': common.single_pair_histories(), 'bound': common.SINGLE_PAIR_BOUND}
+        return {'cases': long_, 'bound': '12 fixed very long histories (one pair with 65-130 runs)'}
+    return {'cases': itertools.chain(long_, common.single_pair_histories()), 'bound': common.SINGLE_PAIR_BOUND + '; 12 fixed very long histories (one pair with 65-130 runs)'}
 
 
 def run_case(case, rec):
